@@ -474,6 +474,31 @@ Model queries: `sig` and `delta` (exact op list, literal data compared by length
         let use_cli = i % (if thorough { 10 } else { 6 }) == 0;
         run_pair(w, &p, &rtm, if use_cli { cli.as_ref() } else { None }, true, prop == "C16");
     }
+    // tiny block sizes, EXHAUSTIVELY over short strings of a 3-letter alphabet (library level: every positive block size):
+    // ends of input, sources shorter than a block, last bytes that occur nowhere in the basis, matches ending exactly at EOF
+    {
+        let alpha = [b'a', b'b', b'x'];
+        let mut strs: Vec<Vec<u8>> = vec![vec![]];
+        let mut frontier: Vec<Vec<u8>> = vec![vec![]];
+        for _ in 0..4 {
+            let mut next = Vec::new();
+            for s_ in &frontier { for c in alpha { let mut t = s_.clone(); t.push(c); next.push(t); } }
+            strs.extend(next.iter().cloned());
+            frontier = next;
+        }
+        let bases: [&[u8]; 4] = [b"abab", b"aab", b"a", b"abaab"];
+        let mut k = 0u64;
+        for bs in [1usize, 2, 3] {
+            for basis in bases {
+                for src in &strs {
+                    k += 1;
+                    let p = Pair { basis: basis.to_vec(), src: src.clone(), bs, label: format!("tiny/bs{bs}/{}/{}", String::from_utf8_lossy(basis), String::from_utf8_lossy(src)), edit: None };
+                    run_pair(w, &p, &rtm, None, k % 29 == 0, prop == "C16");
+                }
+            }
+        }
+        w.count("tiny-exhaustive");
+    }
     // large inputs (rayon path, multi-MiB): implementation vs oracle only, no model line
     let big = if thorough { 40 } else { 6 };
     for i in 0..big {
